@@ -550,6 +550,8 @@ class HeapExec(NumExec):
                 return super().ev_Call(p, e)
             if n in ("RuntimeError", "ValueError", "SyntaxError", "TypeError", "KeyError", "IndexError"):
                 return Exc(n)
+            if n == "str":
+                return "<message>"
             if n == "list" and not e.args:
                 return ("emptylist",)
             # constructor of a schema class with a contract
@@ -748,11 +750,49 @@ class HeapExec(NumExec):
             return s.while_loop(p, n)
         if isinstance(n, ast.With):
             return s.with_stmt(p, n)
+        if isinstance(n, ast.Try):
+            return s.try_stmt(p, n)
         if isinstance(n, ast.Continue):
             return [(p, ("continue", None))]
         if isinstance(n, ast.Break):
             return [(p, ("break", None))]
         return super().stmt(p, n)
+
+    def try_stmt(s, p, n):
+        """try/except/finally: exceptional outcomes of the body (explicit raises and the raise outcomes that callee contracts record)
+        are continued in the first handler that catches them (`except Exception`/bare catch everything the model raises)"""
+        mark = len(s.raised)
+        res = s.block([p], n.body)
+        caught = s.raised[mark:]
+        del s.raised[mark:]
+        out, exc_paths = [], []
+        for q, sig in res:
+            if sig is not None and sig[0] == "raise":
+                exc_paths.append((q, sig[1]))
+            else:
+                out.append((q, sig))
+        exc_paths += caught
+        for q, exc in exc_paths:
+            handled = False
+            for h in n.handlers:
+                names = [] if h.type is None else [x.id for x in (h.type.elts if isinstance(h.type, ast.Tuple) else [h.type]) if isinstance(x, ast.Name)]
+                if h.type is None or "Exception" in names or "BaseException" in names or exc in names:
+                    if h.name:
+                        q.env[h.name] = Exc(exc)
+                    out += s.block([q], h.body)
+                    handled = True
+                    break
+            if not handled:
+                out.append((q, ("raise", exc)))
+        if n.orelse:
+            raise Unsupported("try-else")
+        if n.finalbody:
+            fin = []
+            for q, sig in out:
+                for q2, sig2 in s.block([q], n.finalbody):
+                    fin.append((q2, sig2 if sig2 is not None else sig))
+            out = fin
+        return out
 
     def with_stmt(s, p, n):
         raise Unsupported(f"with statement at line {n.lineno}")
